@@ -35,3 +35,12 @@ Theorem C17_plate_remove : forall cf p r w p',
      exists c, nth_error (wells p) i = Some c /\ nth_error (wells p') i = Some (remove cf c w)).
 Proof. exact premove_wellwise. Qed.
 Print Assumptions C17_plate_remove.
+
+(* in a recipe, the amounts removed are what usage tracking counts as discarded: the trash recorded by a remove step is, for every
+   substance, exactly the amount that left the step's target (container, whole plate or slice; sum over all wells) *)
+Require Import Dilute Solve Plate Prog HistoryThm Recipe RecipeThm C09Thm.
+Theorem C17_recipe_discarded_is_removed : forall cf d13 s e t w e' k,
+  renv_inv cf e -> bake_step cf d13 e (SRemove t w) = Ok (e', k) ->
+  get s (s_trash k) == amount_in_obj s (s_to0 k) - amount_in_obj s (s_to1 k).
+Proof. exact remove_trash_is_loss. Qed.
+Print Assumptions C17_recipe_discarded_is_removed.
